@@ -93,6 +93,9 @@ def canon(r):
     return kind + '|' + r.message
 
 
+RUNNERS = [0]
+
+
 def observe_case(case):
     edges = [(TermId.from_curie(s), TermId.from_curie(o)) for s, o in case['edges']]
     g = FACTORIES[case['factory']]().create_graph(edges)
@@ -110,7 +113,11 @@ def observe_case(case):
             if run.get('direct') and len(vs) == 1:
                 res = vs[0].validate(seq)
             else:
-                res = ValidationRunner(vs).validate_all(seq)
+                # the runner takes an iterable of validators: a list, a tuple, a one-shot generator, a map object (by turns)
+                RUNNERS[0] += 1
+                form = RUNNERS[0] % 4
+                given = vs if form == 0 else tuple(vs) if form == 1 else (v for v in vs) if form == 2 else map(lambda v: v, vs)
+                res = ValidationRunner(given).validate_all(seq)
             found = [canon(r) for r in res.results]
             out = {'ok': sorted(found), 'is_ok': bool(res.is_ok())}
             # the runner's report = concatenation, validator by validator (each compared as a multiset)
